@@ -1,1 +1,111 @@
-From Arche Require Import Model.Base.
+(** C01 - Component data integrity across every structural change.
+    Statements only.  Proofs: Proofs/Tables.v (one table: Alloc, Remove, Reset and the
+    zero tail), Proofs/Store.v (index/row bijection; Set, move between tables, creation:
+    all for arbitrary worlds, including relation tables), Proofs/Graph.v and
+    Proofs/WorldInv.v (the exchange as a whole, for worlds without relation components).
+
+    [store_ok w live] is the invariant: the index and the table rows are a bijection on
+    the alive entities, every table has capacity for its rows, one cell per column, and a
+    zero tail.  [ent_cells w e] is what the storage says about [e]: node, target, cells. *)
+From Arche Require Import Model.Base Model.Pool Model.World Model.Ops
+  Proofs.PoolInv Proofs.Tables Proofs.Store Proofs.Graph Proofs.WorldInv.
+
+(** Set / write-through: exactly one cell of one entity changes. *)
+Theorem C01_set : forall w live e id v w',
+  store_ok w live -> e ∈ live -> set_comp w e id v = Some w' ->
+  store_ok w' live /\ w_nodes w' = w_nodes w /\ w_index w' = w_index w /\ w_pool w' = w_pool w /\
+  (forall e', e' ∈ live -> e' <> e -> ent_cells w' e' = ent_cells w e') /\
+  (exists nd tgt r c, ent_cells w e = Some (nd, tgt, r) /\
+     (exists n, w_nodes w !! nd = Some n /\ col_of n id = Some c) /\
+     ent_cells w' e = Some (nd, tgt, if reg_is_zs w id then r else <[c := v]> r)).
+Proof. exact set_comp_spec. Qed.
+
+(** Moving an entity between any two tables (the step shared by Add, Remove, Exchange,
+    Assign and Relations.Set): the invariant is kept, every other entity - including the
+    one swapped into the vacated row - keeps its cells, the moved entity gets the kept
+    cells copied over a zero row; table growth by any capacity increment included. *)
+Theorem C01_move : forall w live e src row dst keep st dt sn dn,
+  store_ok w live -> e ∈ live -> loc w e = Some (src, row) -> src <> dst ->
+  w_tables w !! src = Some st -> w_tables w !! dst = Some dt ->
+  w_nodes w !! t_node st = Some sn -> w_nodes w !! t_node dt = Some dn -> 0 < node_capinc w dn ->
+  let w' := move_entity w e src row dst keep in
+  store_ok w' live /\ w_nodes w' = w_nodes w /\ w_pool w' = w_pool w /\ w_tbits w' = w_tbits w /\
+  w_cache w' = w_cache w /\ length (w_tables w') = length (w_tables w) /\
+  (forall e', e' ∈ live -> e' <> e -> ent_cells w' e' = ent_cells w e') /\
+  (exists srow, t_rows st !! row = Some srow /\
+     ent_cells w' e = Some (t_node dt, t_target dt, copy_cells keep (n_ids sn) srow (n_ids dn) (zero_row dn))) /\
+  (forall tid, tid <> src -> tid <> dst -> w_tables w' !! tid = w_tables w !! tid) /\
+  (exists st1, w_tables w' !! src = Some st1 /\ tlen st1 = tlen st - 1 /\ t_node st1 = t_node st /\
+               t_target st1 = t_target st /\ t_active st1 = t_active st /\ t_layouts st1 = t_layouts st) /\
+  (exists dt2, w_tables w' !! dst = Some dt2 /\ tlen dt2 = tlen dt + 1 /\ t_node dt2 = t_node dt /\
+               t_target dt2 = t_target dt /\ t_active dt2 = t_active dt /\ t_layouts dt2 = t_layouts dt).
+Proof. exact move_entity_ok. Qed.
+
+(** A newly created entity is not among the alive ones, gets an all-zero row, and no
+    existing entity changes. *)
+Theorem C01_create : forall w live issued frees tid t nd,
+  store_ok w live -> pool_inv (w_pool w) live issued frees ->
+  length (w_index w) = length (p_ents (w_pool w)) ->
+  w_tables w !! tid = Some t -> w_nodes w !! t_node t = Some nd -> 0 < node_capinc w nd ->
+  let '(w', e) := create_entity w tid in
+  e ∉ live /\ e ∉ issued /\ store_ok w' (e :: live) /\
+  (exists frees', pool_inv (w_pool w') (e :: live) (e :: issued) frees') /\
+  length (w_index w') = length (p_ents (w_pool w')) /\
+  w_nodes w' = w_nodes w /\ w_reg w' = w_reg w /\ w_tb w' = w_tb w /\ w_capinc w' = w_capinc w /\
+  (forall e', e' ∈ live -> ent_cells w' e' = ent_cells w e') /\
+  ent_cells w' e = Some (t_node t, t_target t, zero_row nd) /\
+  (forall tid' t', w_tables w !! tid' = Some t' -> exists t'', w_tables w' !! tid' = Some t'' /\ t_node t'' = t_node t').
+Proof. exact create_entity_ok. Qed.
+
+(** The exchange as a whole (World.Add / Remove / Exchange and the structural part of
+    Assign), on worlds without relation components: the entity reports exactly the
+    exchanged component set, kept components keep their values, added ones read zero, and
+    nothing changes for any other alive entity. *)
+Theorem C01_exchange_partial : forall w live e add rem w' x,
+  world_ok w live -> e ∈ live -> exchange_nn w e add rem None = Some (w', Some x) ->
+  world_ok w' live /\
+  (forall e', e' ∈ live -> e' <> e -> ent_mask w' e' = ent_mask w e' /\ forall id, comp_val w' e' id = comp_val w e' id) /\
+  exists oldmask newmask,
+    ent_mask w e = Some oldmask /\ exchange_mask oldmask add rem = Some newmask /\
+    ent_mask w' e = Some newmask /\ newmask <> oldmask /\
+    forall id, id < w_tb w -> bit newmask id = true ->
+      comp_val w' e id = if bit oldmask id then comp_val w e id else Some 0%Z.
+Proof. exact exchange_ok. Qed.
+
+Print Assumptions C01_move.
+Print Assumptions C01_create.
+Print Assumptions C01_exchange_partial.
+
+(** NewEntity: a fresh handle with exactly the requested components, all zero, and no
+    existing entity changes (worlds without relation components). *)
+Theorem C01_new_entity_partial : forall w live issued ids w' e evs,
+  world_ok2 w live issued -> op_new w ids [] = (w', Ok (VEnt e), evs) ->
+  e ∉ issued /\ world_ok2 w' (e :: live) (e :: issued) /\
+  (forall e', e' ∈ live -> ent_mask w' e' = ent_mask w e' /\ forall id, comp_val w' e' id = comp_val w e' id) /\
+  ent_mask w' e = Some (foldl (fun m id => setb m id true) 0%N ids) /\
+  forall id, id < w_tb w -> bit (foldl (fun m id => setb m id true) 0%N ids) id = true -> comp_val w' e id = Some 0%Z.
+Proof. exact new_entity_ok. Qed.
+
+(** The invariant behind all of the above holds after every history of registrations,
+    creations, exchanges, value writes and reads from a new world (any capacity increment,
+    any number of entities), provided operations address handles issued in that history. *)
+Theorem C01_history_partial : forall ops w live issued,
+  world_ok2 w live issued -> core_run_ok w issued ops -> exists live' issued', world_ok2 (run w ops) live' issued'.
+Proof. exact core_history. Qed.
+Theorem C01_initial_world : forall capinc relcapinc tb, 0 < capinc -> world_ok2 (world_init capinc relcapinc tb) [] [].
+Proof. exact world_init_ok. Qed.
+
+(** Non-vacuity: a concrete history with growth (capacity increment 1), moves between
+    three tables and a swap-remove of a non-last row satisfies the premises. *)
+Example C01_history_example :
+  let w0 := world_init 1 0 256 in
+  let ops := [ORegister 10 false false; ORegister 11 false false; ONew [0]; ONew [0]; ONew [0; 1];
+              OSet (mkE 1 0) 0 7%Z; OExchange (mkE 1 0) [1] []; OExchange (mkE 3 0) [] [0]; OGet (mkE 2 0) 0] in
+  core_run_ok w0 [] ops /\
+  fst (step (run w0 ops) (OView (mkE 1 0))) = (run w0 ops, Ok (VView 3 [(0, 7%Z); (1, 0%Z)] None)).
+Proof.
+  split; [|vm_compute; reflexivity].
+  vm_compute. repeat split; try constructor; auto using elem_of_list_here, elem_of_list_further.
+Qed.
+
+Print Assumptions C01_history_partial.
